@@ -37,7 +37,7 @@ CLAIMS = {
              "word); the pairing of a key with the following word or the glued rest of its word is decided by an exhaustive "
              "table over value mode x what follows (Engine B, shared with C02-R12); the tokeniser's decision when the rest of "
              "a word is a value is evaluated for every combination of its inputs (after '--key=' always, a requested "
-             "value only inside a word); a stored value is also reported as given (hasValue). The full equivalence of all command-line spellings (tokenisation by the "
+             "value only inside a word - whatever character the rest starts with, so that a glued negative value is a value, and whether or not '--' was seen); a stored value is also reported as given (hasValue). The full equivalence of all command-line spellings (tokenisation by the "
              "ArgListIterator state machine) is a relation over an exponential input space and is NOT decided.",
         note="trusts clang AST/CFG, boost::lexical_cast; spelling equivalence not covered",
         technique="static analysis: who-may-write effect facts, def-use of stores, who-may-call"),
@@ -67,7 +67,7 @@ CLAIMS = {
              "on that information (the parameter in assignValue, a member set from it in the list loops of the "
              "multi-value destinations), canonical key for constraint matching, every successful assign() makes hasValue() "
              "true (mandatory check), value constraints relate only values that "
-             "were given (compareValue() reachable only through hasValue()-true edges of both arguments). The general statement is not "
+             "were given (compareValue() reachable only through hasValue()-true edges of both arguments); the complete key of a sub-group argument is not pre-empted by a normal argument it abbreviates (lookup table over both key containers, shared with C05-R5). The general statement is not "
              "decidable statically and is not claimed.",
         note="trusts clang AST/CFG; boost::lexical_cast converts every representable value; interaction of arbitrary "
              "checks/formats/constraints is not decided", also=("engine B (boolshape.py)",),
@@ -90,7 +90,7 @@ CLAIMS = {
              "outside the program: a loop driven by a stream read must end at the first failed read (end of file or "
              "error), and for the element loop over an argument vector: every step of the argument iterator is proved to move "
              "the cursor forward (word index, then character position; the nested step on a lone '--' by induction). "
-             "Termination of the remaining loops is NOT decided.",
+             "Termination of the remaining loops is NOT decided. Downcast provenance: every pointer that a Handler member static_casts to the sub-group argument class comes, on every reaching definition, out of the container that only receives sub-group objects (or is null).",
         note="trusted base: clang front end, extractor, cv/lin.py + cv/bounds.py and its models of "
              "strlen/strcpy/new[]/std::vector/std::string; argc >= 1, argv words are C strings shorter than 2 GiB, "
              "argv[argc] is null",
@@ -111,7 +111,7 @@ CLAIMS = {
              "EVERY combination of what the two containers hold for the key (nothing / the exact key / one / several "
              "abbreviation matches) against the contract of the container lookups: an exact key always selects its "
              "own argument, one abbreviation match in total selects it, none is unknown, more than one throws. Key parsing: the string constructor of ArgumentKey removes exactly the "
-             "leading dashes (at most two) for every specification text (Engine C with symbolic characters).",
+             "leading dashes (at most two) for every specification text (Engine C with symbolic characters); in the two-part form the short key is the character of the part that the guarding condition knows to be one character long and the long key is the other part.",
         note="trusts clang AST/CFG and the documented meaning of std::string::compare/find/rfind/substr; the comma "
              "form of key specifications is not decided",
         also=("engine B (boolshape.py)", "engine C (lin.py, bounds.py)"),
@@ -122,7 +122,7 @@ CLAIMS = {
              "C array, std::array, tuple, bitset, vector<bool>, DynamicBitset): the order clear (once, flag reset) -> "
              "(check -> format -> convert -> duplicate test -> add)* -> sort (after the loop, if requested) is decided by "
              "reachability inside one iteration of the loop CFG; the trait constants of every ContainerAdapter "
-             "specialisation are compared with the shape of its sort()/contains()/addValue()/clear(); capacity and growth "
+             "specialisation are compared with the shape of its sort()/contains()/addValue()/clear(); the four key-value adapters insert the pair ( key, value) and touch the destination in no other way (earlier content stays, siblings agree); capacity and growth "
              "of fixed-size destinations by Engine C; duplicate test over the filled prefix; routing of free values by "
              "guards. Equality of the final container with the fold over all cuts is not decided.",
         note="trusts clang AST/CFG; standard containers and boost::tokenizer behave as documented",
@@ -142,7 +142,7 @@ CLAIMS = {
              "is written by no function that runs once per chunk of words, so a value list continues across file "
              "lines / environment / argv exactly as across argv words; the line loop of the argument file runs for every "
              "line the read delivers (incl. an unterminated last line); the sub-group handler a word is dispatched to "
-             "evaluates it in the read mode of the dispatching handler. Other quoting disciplines and "
+             "evaluates it in the read mode of the dispatching handler; both constructors of ArgString2Array hand the word list of the splitter to the argv array unmodified (no word removed, added or rewritten). Other quoting disciplines and "
              "value equality between sources are not decided.",
         note="trusts clang AST/CFG; std::string append/clear semantics; round trip claimed for backslash escaping only",
         also=("engine A (cfg.py)", "engine C (lin.py, bounds.py)"),
@@ -162,7 +162,7 @@ CLAIMS = {
              "abbreviation in total is used, none or several end in an exception), T2 a key ends the open value list "
              "of every member, T3 result 'last' ends the evaluation, T4 '!' inverts the next argument of whichever "
              "member owns it and nothing stays armed (T4 reports an open, recorded finding: the present behaviour is "
-             "codified by an unpinned in-tree test, see known_findings.json).",
+             "codified by an unpinned in-tree test, see known_findings.json). Both comparisons of checkArgMix() relate a key of the own container with a key of the other one.",
         note="trusts clang AST/CFG; per-member identification rules are those of C02; value equality between the "
              "two evaluation paths is not decided",
         technique="static analysis: sibling agreement + per-iteration must-pass-through on the CFG + exhaustive "
@@ -174,7 +174,7 @@ CLAIMS = {
              "touch no written, mutable object with static storage duration unless a lock on a static mutex is held; "
              "no non-reentrant libc call; per-handler constraint container; no function-local static on those paths is "
              "initialised from a parameter, a local or the object (a process-wide memo of the first caller's data "
-             "is not a race but breaks 'as if alone'). Holds for every schedule because it is a "
+             "is not a race but breaks 'as if alone'); every call from a Handler member into the process-wide group registry is guarded by the membership flag (three frozen, reasoned exceptions). Holds for every schedule because it is a "
              "statement about all paths of all reachable functions; it does not execute interleavings.",
         note="trusts clang AST/CFG, the extractor, thread-safety of boost/libstdc++ internals; std::function targets "
              "supplied by users are outside the claim",
